@@ -8,6 +8,8 @@ import (
 	"strings"
 
 	"golang.org/x/tools/go/ssa"
+
+	"gzverify/px"
 )
 
 // Small SSA lints shared between properties (round 3).
@@ -628,6 +630,47 @@ func (c *Ctx) instanceStateFresh(pkg, typ string, exemptFields ...string) (bad [
 				sites++
 				if g := globalRoot(st.Val, 0, map[ssa.Value]bool{}); g != nil {
 					bad = append(bad, fmt.Sprintf("%s: %s initialises %s.%s from package-level variable %s: the state is shared by every %s", c.P.Pos(st.Pos()), f.Name(), typ, name, g.Name(), typ))
+				}
+			}
+		}
+	}
+	sort.Strings(bad)
+	return
+}
+
+// locksReleasedOnAllExits (round 5): a function that calls user code (a function-typed parameter, field or captured
+// variable, or an interface method on a parameter) while holding a sync mutex must release it on the panic exit of
+// that call too — i.e. through a deferred Unlock. Executors recover a callback's panic further up and carry on; a
+// lock left behind by the panicking call blocks every later batch. Returns one message per offending path kind.
+func (c *Ctx) locksReleasedOnAllExits(rule string, f *ssa.Function) (bad []string, paths int) {
+	ps := c.paths(rule, f, px.Config{MaxVisits: 2, MayPanic: userPanics})
+	seen := map[string]bool{}
+	for _, p := range ps {
+		paths++
+		held := map[string]int{}
+		for i := range p.Events {
+			e := &p.Events[i]
+			if e.Kind != px.EvCall || e.Call == nil || e.Call.Obj() == nil || e.Call.Recv == nil {
+				continue
+			}
+			o := e.Call.Obj()
+			if o.Pkg() == nil || o.Pkg().Path() != "sync" {
+				continue
+			}
+			key := e.Call.Recv.Describe()
+			switch o.Name() {
+			case "Lock", "RLock":
+				held[key]++
+			case "Unlock", "RUnlock":
+				held[key]--
+			}
+		}
+		for k, n := range held {
+			if n > 0 && p.Exit == px.ExitPanic {
+				msg := fmt.Sprintf("%s is still held when a panic of the user callback leaves %s (Unlock is not deferred): the panic is recovered further up, and every later call blocks on the lock", k, f.Name())
+				if !seen[msg] {
+					seen[msg] = true
+					bad = append(bad, msg)
 				}
 			}
 		}
